@@ -24,7 +24,7 @@ RULE = ("three seeded workloads with the cyclic GC disabled for the whole case: 
 ASSUMPTIONS = ["objects legitimately kept alive by a held view's base reference are exempt", "gradient persistence under no_autodiff use is recorded, not judged"]
 TIERS = {"quick": {"cases": 3000, "nodes": (2, 10), "nstmts": (3, 10)}, "thorough": {"cases": 90000, "nodes": (3, 24), "nstmts": (4, 22)}}
 FLOORS = {"quick": {"graphstate_checks": 20000, "release_checks": 4000, "iter_compared": 3000, "life_steps": 4000},
-          "thorough": {"graphstate_checks": 600000, "release_checks": 100000, "iter_compared": 100000, "life_steps": 100000}}
+          "thorough": {"graphstate_checks": 100000, "release_checks": 20000, "iter_compared": 15000, "life_steps": 20000}}
 
 
 def gen_case(rng, cfg, idx):
